@@ -76,6 +76,16 @@ VARIANTS = [
         dict(file=PU, old="        macro_value = macros[macro_name]", new="        macro_value = macros.get(macro_name, '$' + macro_name)")]),
     dict(name='macro-definition-columns-swapped', expect='fire', key='PROV-macros|definition', edits=[
         dict(file=PU, old="    macro_name = tokens.popleft()\n    macro_value = tokens.popleft()", new="    macro_value = tokens.popleft()\n    macro_name = tokens.popleft()")]),
+    dict(name='features-first-token-only', expect='fire', key='PROV-sections|features', edits=[
+        dict(file=FF, old="    context.features.update(set(tokens))", new="    context.features.add(tokens[0])")]),
+    dict(name='link-attribute-stored-as-molmeta', expect='fire', key='PROV-sections|link-attribute', edits=[
+        dict(file=FF, old="    if section == 'link':\n        context._apply_to_all_nodes[key] = value\n    elif section == 'molmeta':\n        context.molecule_meta[key] = value",
+             new="    if section == 'molmeta':\n        context._apply_to_all_nodes[key] = value\n    elif section == 'link':\n        context.molecule_meta[key] = value")]),
+    dict(name='link-atom-link-wide-attributes-win', expect='fire', key='PROV-sections|link-atom', edits=[
+        dict(file=FF, old="    attributes = dict(collections.ChainMap(attributes, context._apply_to_all_nodes))\n    node_attributes", new="    attributes = dict(collections.ChainMap(context._apply_to_all_nodes, attributes))\n    node_attributes")]),
+    dict(name='variables-extra-column-accepted', expect='fire', key='PROV-sections|variables', edits=[
+        dict(file=FF, old="def _parse_variables(tokens, force_field, section):\n    if len(tokens) > 2:\n        raise IOError('Unexpected column in section \"{}\".'.format(section))\n",
+             new="def _parse_variables(tokens, force_field, section):\n")]),
     # benign
     dict(name='benign-reset-instead-of-guard', expect='silent', edits=[
         dict(file=FF, old="            if not links or links[-1] is not self.current_link:\n                links.append(self.current_link)",
